@@ -180,6 +180,12 @@ func (ph *ptraceHandle) handle(pid int, wstatus unix.WaitStatus) (status runner.
 			exitStatus = int(sig)
 			return
 		}
+		// a child process or thread killed by the seccomp filter
+		if sig == unix.SIGSYS {
+			status = runner.StatusDisallowedSyscall
+			exitStatus = int(sig)
+			return
+		}
 		unix.PtraceCont(pid, int(sig))
 		verifEvent("cont", "pid", pid, "sig", int(sig), "why", "signaled")
 
